@@ -578,8 +578,34 @@ def r32(body):
     return _sub(r"\bif\s+let\s+Some\s*\(\s*&\s*('(?:\\.|[^'\\])')\s*\)\s*=\s*([^{};]+?)\s*\{", lambda m: "if vx_opt_ref_is(%s, %s) {" % (re.sub(r"^(\w+)\s*\.\s*peek\s*\(\s*\)$", r"core::iter::Peekable::peek(&mut \1)", " ".join(m.group(2).split())), m.group(1)), body)
 
 
+@rule("R33", "S.char_indices()[.rev()].skip_while(|&(a, b)| P).find(|&(c, d)| Q) -> { let mut vx_ci = vx_char_indices(S); let mut vx_skipping = true; let mut vx_found = None; loop { match vx_ci.next() /* next_back() under rev */ { Some(vx_item) => { if vx_skipping { let (a, b) = vx_item; if P { continue; } } vx_skipping = false; let (c, d) = vx_item; if Q { vx_found = Some(vx_item); break; } } None => break, } } vx_found }   [std definitions of SkipWhile::next (the predicate is not consulted again after its first false), Rev::next = next_back and Iterator::find, closures inlined; CharIndices through assumed std contracts]")
+def r33(body):
+    pat = re.compile(
+        r"(?P<recv>(?:self\s*\.\s*)?\w+(?:\s*\.\s*\w+)*?)\s*\.\s*char_indices\s*\(\s*\)\s*(?P<rev>\.\s*rev\s*\(\s*\)\s*)?"
+        r"\.\s*skip_while\s*\(\s*\|\s*&\s*\(\s*(?P<a>\w+)\s*,\s*(?P<b>\w+)\s*\)\s*\|\s*(?P<p>[^(){};|]+?)\s*\)\s*"
+        r"\.\s*find\s*\(\s*\|\s*&\s*\(\s*(?P<c>\w+)\s*,\s*(?P<d>\w+)\s*\)\s*\|\s*(?P<q>[^(){};|]+?)\s*\)", re.S)
+    count = 0
+    while True:
+        m = pat.search(body)
+        if not m:
+            break
+        nxt = "next_back" if m.group("rev") else "next"
+        new = ("{ let mut vx_ci = vx_char_indices(%s); let mut vx_skipping = true; let mut vx_found: Option<(usize, char)> = None;\n"
+               "loop { match vx_ci.%s() { Some(vx_item) => {\n"
+               "if vx_skipping { let (%s, %s) = vx_item; if %s { continue; } } vx_skipping = false;\n"
+               "let (%s, %s) = vx_item; if %s { vx_found = Some(vx_item); break; } }\n"
+               "None => break, } } vx_found }"
+               % ("".join(m.group("recv").split()), nxt, m.group("a"), m.group("b"), " ".join(m.group("p").split()),
+                  m.group("c"), m.group("d"), " ".join(m.group("q").split())))
+        if new.count("\n") > m.group(0).count("\n"):
+            new = new.replace("\n", " ")
+        body = body[:m.start()] + _pad(m.group(0), new) + body[m.end():]
+        count += 1
+    return body, count
+
+
 # rules that are purely syntactic proof devices are applied only when a unit asks for them
-OPT_IN = {"R9", "R9b", "R15", "R17", "R21", "R22", "R24", "R25", "R25b", "R26", "R28", "R30", "R31", "R32"}
+OPT_IN = {"R9", "R9b", "R15", "R17", "R21", "R22", "R24", "R25", "R25b", "R26", "R28", "R30", "R31", "R32", "R33"}
 # std-definition rules that may fire in any extracted function without being declared by the unit (they are logged)
 FREE = {"R27", "R29"}
 
